@@ -10,6 +10,7 @@ import (
 	"errors"
 	"fmt"
 	"math/big"
+	"runtime"
 	"strings"
 
 	"github.com/artela-network/artela-evm/vm"
@@ -44,8 +45,11 @@ func genPayload66(r *Rng) ([]byte, string) {
 	case k < 75: // a head or length word replaced by a boundary value
 		pos := []int{0, 32, 64, 64 + 32 + (len(key)+31)/32*32}[r.Intn(4)]
 		var w *uint256.Int
-		if r.Chance(60) {
+		if r.Chance(45) {
 			w, _ = uint256.FromHex("0x" + abiBoundary[r.Intn(len(abiBoundary))])
+		} else if r.Chance(40) {
+			// 2^64 - k with k up to the payload length: offset+32 or start+length wraps to a position inside the payload
+			w = new(uint256.Int).Sub(new(uint256.Int).Lsh(uint256.NewInt(1), 64), uint256.NewInt(uint64(r.Intn(len(enc)+64))))
 		} else {
 			// relative to the payload length: len-32, len-31, len, len+1
 			w = uint256.NewInt(uint64(len(enc) - 32 + r.Intn(35)))
@@ -116,11 +120,11 @@ func hostLogStr() string {
 
 // precompileExitLogger records enter/exit of calls whose target is the precompile under test.
 type pcLogger struct {
-	target  common.Address
-	stack   []bool
-	seen    bool
-	out     []byte
-	err     error
+	target common.Address
+	stack  []bool
+	seen   bool
+	out    []byte
+	err    error
 }
 
 func (l *pcLogger) CaptureTxStart(uint64) {}
@@ -292,5 +296,67 @@ func drivePrecompile(seed uint64, n int, size int, em *Emitter) {
 		if impl != "panic" {
 			em.Op("C03", "S cursor-at-rest", cur)
 		}
+		// ---------- (c) inherited precompiles 1-9: bytes allocated per call against the gas the call must pay (C20, measured)
+		stdPrecompileWork(r, em, seed, i)
 	}
+}
+
+// stdPrecompileWork runs one standard precompile on a boundary-driven input that a caller could pay for and compares the bytes
+// the call allocates (runtime.MemStats.TotalAlloc, best of two runs) with 64 bytes per unit of gas plus 64 KiB.
+func stdPrecompileWork(r *Rng, em *Emitter, seed uint64, i int) {
+	addrB := byte(1 + r.Intn(9))
+	p := vm.PrecompiledContractsBerlin[common.BytesToAddress([]byte{addrB})]
+	var in []byte
+	lens := []uint64{0, 0, 1, 32, 64, 1 << 10, 1 << 17, 1 << 20, 1 << 24, 1 << 26}
+	switch addrB {
+	case 5:
+		w := func(v uint64) []byte { return word32(uint256.NewInt(v)) }
+		bl, el, ml := lens[r.Intn(5)], lens[r.Intn(len(lens))], lens[r.Intn(5)]
+		if r.Chance(30) {
+			bl, ml = 0, 0
+		}
+		in = append(append(append(w(bl), w(el)...), w(ml)...), r.Bytes(r.Intn(100))...)
+	case 9:
+		in = r.Bytes(213)
+		rounds := []uint32{0, 1, 12, 1 << 16}[r.Intn(4)]
+		in[0], in[1], in[2], in[3] = byte(rounds>>24), byte(rounds>>16), byte(rounds>>8), byte(rounds)
+		in[212] = byte(r.Intn(2))
+	case 2, 3, 4:
+		in = r.Bytes([]int{0, 1, 32, 1000, 1 << 16}[r.Intn(5)])
+	default:
+		in = r.Bytes([]int{0, 64, 128, 192, 384}[r.Intn(5)])
+	}
+	em.Reset(fmt.Sprintf("precompile-std-%d-%d", seed, i))
+	gas := p.RequiredGas(in)
+	if gas > 30_000_000 {
+		em.Count(fmt.Sprintf("std:%x:unpayable", addrB))
+		return
+	}
+	verdict := "ok"
+	best := ^uint64(0)
+	for k := 0; k < 2; k++ {
+		func() {
+			defer func() {
+				if x := recover(); x != nil {
+					verdict = "panic"
+				}
+			}()
+			var m0, m1 runtime.MemStats
+			runtime.ReadMemStats(&m0)
+			p.Run(context.Background(), in)
+			runtime.ReadMemStats(&m1)
+			if d := m1.TotalAlloc - m0.TotalAlloc; d < best {
+				best = d
+			}
+		}()
+	}
+	if verdict == "ok" && best > 64*gas+(1<<16) {
+		verdict = fmt.Sprintf("allocates_%d_bytes_for_%d_gas", best, gas)
+	}
+	hdr := in
+	if len(hdr) > 96 {
+		hdr = hdr[:96]
+	}
+	em.Op("C20,C03", fmt.Sprintf("S stdwork %x len=%d head=%s", addrB, len(in), hexBytes(hdr)), verdict)
+	em.Count(fmt.Sprintf("std:%x:%s", addrB, strings.SplitN(verdict, "_", 2)[0]))
 }
